@@ -138,9 +138,11 @@ def run(ck):
                     names[k] = 'UNSET'
                 elif k[0] == 'Is' and set(k[1:]) == {'False', 'self.weight'}:
                     names[k] = 'OFF'
-        ok = flow.equivalent(flow.rename(arms["molecule.force_field.variables.get('center_weight', None)"], names), flow.parse_formula('UNSET'))[0] and \
-            flow.equivalent(flow.rename(arms['None'], names), flow.parse_formula('not UNSET and OFF'))[0] and \
-            flow.equivalent(flow.rename(arms['self.weight'], names), flow.parse_formula('not UNSET and not OFF'))[0]
+        # (the setting cannot be None and False at once: the order in which the two are asked does not matter)
+        excl = flow.parse_formula('not (UNSET and OFF)')
+        ok = flow.equivalent(flow.rename(arms["molecule.force_field.variables.get('center_weight', None)"], names), flow.parse_formula('UNSET'), excl)[0] and \
+            flow.equivalent(flow.rename(arms['None'], names), flow.parse_formula('not UNSET and OFF'), excl)[0] and \
+            flow.equivalent(flow.rename(arms['self.weight'], names), flow.parse_formula('not UNSET and not OFF'), excl)[0]
     ck.ob('PROV-centre-weight', mod.loc(rm), ok, 'centre weight: the force field\'s center_weight variable when none was configured, none when switched off, else the configured attribute',
           key='PROV-centre-weight|source')
     constituents_rule(ck)
